@@ -37,6 +37,7 @@ mod vk_vec_n4 {
     // @harness name=vec_ledger_next_n4 tier=thorough group=default,nodebug props_nodebug=C17 props=C08,C01,C02 kind=bounded bound="len <= 4; counter value c over the full usize domain"
     #[kani::proof]
     #[kani::unwind(6)]
+    #[kani::stub(std::thread::panicking, any_panicking)]
     fn vec_ledger_next_n4() {
         let len: usize = kani::any();
         kani::assume(len <= N);
@@ -66,6 +67,7 @@ mod vk_vec_n4 {
     // @harness name=vec_ledger_chunk_n4 tier=thorough group=default,nodebug props_nodebug=C17 props=C08,C01,C02,C03 kind=bounded bound="len <= 4; c, n over the full usize domain (c + n <= usize::MAX); any number of chunk items consumed"
     #[kani::proof]
     #[kani::unwind(6)]
+    #[kani::stub(std::thread::panicking, any_panicking)]
     fn vec_ledger_chunk_n4() {
         let len: usize = kani::any();
         kani::assume(len <= N);
@@ -114,6 +116,7 @@ mod vk_vec_n4 {
     // @harness name=vec_ledger_buffered_n4 tier=thorough props=C08,C01,C02,C03 kind=bounded bound="len <= 4; c, chunk size over the full usize domain; any number of chunk items consumed"
     #[kani::proof]
     #[kani::unwind(6)]
+    #[kani::stub(std::thread::panicking, any_panicking)]
     fn vec_ledger_buffered_n4() {
         let len: usize = kani::any();
         kani::assume(len <= N);
@@ -160,6 +163,7 @@ mod vk_vec_n4 {
     // @harness name=vec_ledger_skip_n4 tier=thorough group=default,nodebug props_nodebug=C17 props=C08,C15,C06,C10 kind=bounded bound="len <= 4; c over the full usize domain"
     #[kani::proof]
     #[kani::unwind(6)]
+    #[kani::stub(std::thread::panicking, any_panicking)]
     fn vec_ledger_skip_n4() {
         let len: usize = kani::any();
         kani::assume(len <= N);
@@ -353,7 +357,7 @@ mod vk_vec_n4 {
 
     // the same operations seen at the level of the std atomics (every atomic operation on the counter is logged, whatever
     // AtomicCounter method -- existing or new -- performed it)
-    // @harness name=vec_ops_std_n4 tier=thorough props=C01,C04,C05,C06,C09,C10,C11 kind=bounded bound="length <= 3; chunk size and every value read symbolic over the full usize domain"
+    // @harness name=vec_ops_std_n4 tier=thorough props=C01,C04,C05,C06,C09,C10,C11,C17 kind=bounded bound="length <= 3; chunk size and every value read symbolic over the full usize domain"
     #[kani::proof]
     #[kani::unwind(18)]
     #[kani::stub(std::sync::atomic::Atomic::<usize>::fetch_add, a_faa)]
@@ -391,6 +395,7 @@ mod vk_vec_n4 {
     // @harness name=vec_chunk_nth_n4 tier=thorough props=C08,C15,C03 kind=bounded bound="len <= 4; one chunk of any size from any counter value; nth(k) with k <= 2"
     #[kani::proof]
     #[kani::unwind(6)]
+    #[kani::stub(std::thread::panicking, any_panicking)]
     fn vec_chunk_nth_n4() {
         let len: usize = kani::any();
         kani::assume(len <= N);
@@ -414,6 +419,46 @@ mod vk_vec_n4 {
                     delivered[c + k] = true;
                     std::mem::forget(x);
                 } else { assert!(x.is_none(), "[C03 chunk-nth] nth past the chunk is None"); }
+            };
+        }
+        drop(it);
+        chk_ledger(len, owned_from, &delivered);
+    }
+
+    // internal iteration over a chunk (fold, on which for_each / sum / count / last / collect are built), after the chunk was partly
+    // consumed with next(): exactly the elements not yet taken, in order, each once; nothing left for Drop to destroy twice
+    // @harness name=vec_chunk_fold_n4 tier=thorough props=C08,C01,C02,C03 kind=bounded bound="len <= 4; one chunk of any size from any counter value; 0..=2 items taken with next(), the rest with fold"
+    #[kani::proof]
+    #[kani::unwind(6)]
+    #[kani::stub(std::thread::panicking, any_panicking)]
+    fn vec_chunk_fold_n4() {
+        let len: usize = kani::any();
+        kani::assume(len <= N);
+        let it = mk(len);
+        let c: usize = kani::any();
+        let n: usize = kani::any();
+        kani::assume(n >= 1 && n <= usize::MAX - c);
+        it.counter().store(c);
+        let owned_from = if c < len { c } else { len };
+        let mut delivered = [false; N];
+        let take: usize = kani::any();
+        kani::assume(take <= 2);
+        {
+            if let Some(ch) = it.next_chunk(n) {
+                let mut vals = ch.values;
+                let l = vals.len();
+                let mut k = 0;
+                while k < 2 { if k < take { if let Some(x) = vals.next() { assert!(x.0 == c + k, "[C02 C03 C08 contents] k-th chunk element is the one at position c + k"); delivered[c + k] = true; std::mem::forget(x); } } k += 1; }
+                let t = if take < l { take } else { l };
+                kani::cover!(t == 1 && l == 3, "one element taken with next(), two left for fold");
+                let cnt = vals.fold(0usize, |j, x| {
+                    assert!(x.0 == c + t + j, "[C01 C02 C03 C08 chunk-fold] internal iteration continues where next() stopped: no element twice, none skipped");
+                    assert!(x.0 < len, "[C03 chunk-fold] internal iteration yields source elements only");
+                    delivered[x.0] = true;
+                    std::mem::forget(x);
+                    j + 1
+                });
+                assert!(cnt == l - t, "[C01 C03 chunk-fold-len] internal iteration yields exactly the elements next() had not taken");
             };
         }
         drop(it);
